@@ -368,11 +368,47 @@ def name_flow(repo: Repo) -> Flow:
                 return set()
         return None
 
-    fl = Flow(
-        repo,
-        T,
-        Spec(sources=sources, transfer=transfer, param_seeds=seeds, objects_carry=False, iter_map={"PARTS": "COMP"}, collect_map={"COMP": "PARTS"}),
-    )
+    def build() -> Flow:
+        return Flow(
+            repo,
+            T,
+            Spec(sources=sources, transfer=transfer, param_seeds=seeds, objects_carry=False, iter_map={"PARTS": "COMP"}, collect_map={"COMP": "PARTS"}),
+        )
+
+    fl = build()
+    # callable objects: `matcher(name)`, `filter(matcher, names)`, `map(matcher, names)` where the static type of `matcher` is a repo
+    # class with __call__ - the flow engine does not route such arguments, so the parameters of __call__ are seeded with what the
+    # call sites pass (one more round of the flow analysis; only when the tree has such classes)
+    callables = {c.fq: c.methods["__call__"] for c in repo.classes.values() if "__call__" in c.methods and not isinstance(c.methods["__call__"].node, ast.Lambda)}
+    for _ in range(2 if callables else 0):
+        extra: dict[tuple[str, str], set[str]] = {}
+
+        def feed(obj_f: FuncInfo, obj: ast.expr, arg_tags: list[set[str]]) -> None:
+            for m in members(T.expr(obj_f, obj)):
+                if m[0] == "cls" and m[1] in callables:
+                    g = callables[m[1]]
+                    ps = [x for x in _positional(g) if x != "self"]
+                    for name_, tags in zip(ps, arg_tags):
+                        add = {t for t in tags if t in ("NAME", "REGEX")}
+                        if add - seeds.get((g.fq, name_), set()):
+                            extra.setdefault((g.fq, name_), set()).update(add)
+
+        for f in repo.all_functions():
+            for c in calls_in(f.node):
+                try:
+                    if isinstance(c.func, ast.Name) and c.func.id in ("filter", "map") and len(c.args) == 2 and not _is_local(f, c.func.id):
+                        feed(f, c.args[0], [set(fl.tags(c.args[1]))])
+                    elif isinstance(c.func, (ast.Name, ast.Attribute, ast.Call, ast.Subscript)) and not any(isinstance(a, ast.Starred) for a in c.args):
+                        if isinstance(c.func, (ast.Name, ast.Attribute)) and (repo.resolve_name(f.module, c.func) or "") in repo.classes:
+                            continue  # a constructor call
+                        feed(f, c.func, [set(fl.tags(a)) for a in c.args])
+                except Exception:  # noqa: BLE001 - an untypable callee feeds nothing
+                    continue
+        if not extra:
+            break
+        for k_, v_ in extra.items():
+            seeds[k_] = seeds.get(k_, set()) | v_
+        fl = build()
     _cache[key] = fl
     return fl
 
@@ -2074,6 +2110,269 @@ def _found_guard(repo: Repo, f: FuncInfo, node: ast.AST, hay: str, index_texts: 
         return False
 
 
+class _GiveUp(Exception):
+    pass
+
+
+def _range_nonempty(f: FuncInfo, loop: ast.AST) -> bool:
+    """`for .. in range(n)` (n a constant >= 1, or a variable / expression that the path condition of the loop shows to be positive:
+    `if n <= 0: return ..` before it): the body runs at least once."""
+    from core.guards import atom as mk, atoms_of, f_not, f_or, implies
+
+    from .common import guard_formula
+
+    it = getattr(loop, "iter", None)
+    if not (isinstance(it, ast.Call) and isinstance(it.func, ast.Name) and it.func.id == "range" and len(it.args) == 1 and not it.keywords):
+        return False
+    n = it.args[0]
+    if isinstance(n, ast.Constant):
+        return isinstance(n.value, int) and not isinstance(n.value, bool) and n.value >= 1
+    text = norm(n)
+    try:
+        facts = guard_formula(f, loop)
+    except Exception:  # noqa: BLE001
+        return False
+    pos, neg = [], []
+    for a in atoms_of(facts):
+        e = _unbool(_parse_atom(a))
+        if not (isinstance(e, ast.Compare) and len(e.ops) == 1):
+            continue
+        l, op, r = e.left, type(e.ops[0]), e.comparators[0]
+        for x, y, flip in ((l, r, False), (r, l, True)):
+            if norm(x) != text:
+                continue
+            try:
+                k = ast.literal_eval(y)
+            except Exception:  # noqa: BLE001
+                continue
+            if isinstance(k, bool) or not isinstance(k, int):
+                continue
+            o = {ast.Lt: ast.Gt, ast.Gt: ast.Lt, ast.LtE: ast.GtE, ast.GtE: ast.LtE}.get(op, op) if flip else op
+            if (o is ast.Gt and k >= 0) or (o is ast.GtE and k >= 1):
+                pos.append(mk(a))
+            elif (o is ast.LtE and k >= 0) or (o is ast.Lt and k >= 1):
+                neg.append(mk(a))
+    try:
+        return bool(pos or neg) and implies(facts, f_or([*pos, *[f_not(x) for x in neg]]))
+    except AnalysisError:
+        return False
+
+
+def _index_values_at(f: FuncInfo, var: str, hay: str, at: ast.AST) -> frozenset | None:
+    """Which kinds of values the index variable `var` can hold when the statement that contains `at` is reached - a small
+    path-sensitive interpretation of the function body over the domain {neg (-1: separator not found / sentinel), zero (constant 0),
+    sep (position of a '.' of `hay`: find / rfind result that is not -1, index / rindex), len (len(hay))}. Tests of the variable
+    against integer constants (`i < 0`, `i == -1`, `i != -1`, `i >= 0`, either side, `not`, `and` / `or`) refine the set on the
+    two branches of if / while / conditional exits; loops are iterated to a fixpoint, break / continue / return / raise end a path.
+    None: the function does something with the variable that is not modelled (no statement about the index is made then)."""
+    fn = f.node
+    if not isinstance(fn, (ast.FunctionDef, ast.AsyncFunctionDef)):
+        return None
+    target = stmt_of(at) if not isinstance(at, ast.stmt) else at
+    if target is None:
+        return None
+    ALL_NONNEG = ("zero", "sep", "len")
+    seen_at: list = [None]
+
+    def stores(node: ast.AST) -> bool:
+        return any(isinstance(x, ast.Name) and x.id == var and isinstance(x.ctx, (ast.Store, ast.Del)) for x in ast.walk(node))
+
+    def absval(v: ast.expr) -> frozenset:
+        if isinstance(v, ast.Call) and isinstance(v.func, ast.Attribute) and norm(v.func.value) == hay and v.args and _const_str(v.args[0]) == ".":
+            if v.func.attr in ("find", "rfind"):
+                return frozenset({"neg", "sep"})
+            if v.func.attr in ("index", "rindex"):
+                return frozenset({"sep"})
+        if isinstance(v, ast.Call) and _call_name(v) == "len" and len(v.args) == 1 and norm(v.args[0]) == hay:
+            return frozenset({"len"})
+        try:
+            k = ast.literal_eval(v)
+        except Exception:  # noqa: BLE001
+            raise _GiveUp from None
+        if isinstance(k, bool) or not isinstance(k, int) or k not in (-1, 0):
+            raise _GiveUp
+        return frozenset({"neg" if k == -1 else "zero"})
+
+    def can(kind: str, op: type, k: int, want: bool) -> bool:
+        """Some value of this kind makes `value <op> k` evaluate to `want`."""
+        table = {ast.Lt: lambda x: x < k, ast.LtE: lambda x: x <= k, ast.Gt: lambda x: x > k, ast.GtE: lambda x: x >= k, ast.Eq: lambda x: x == k, ast.NotEq: lambda x: x != k}
+        fn_ = table.get(op)
+        if fn_ is None:
+            return True
+        if kind == "neg":
+            return fn_(-1) is want
+        if kind == "zero":
+            return fn_(0) is want
+        # any non-negative integer: the truth value changes at most once around k
+        return any(fn_(x) is want for x in (0, max(k - 1, 0), max(k, 0), max(k, 0) + 1))
+
+    def join(a, b):
+        if a is None:
+            return b
+        if b is None:
+            return a
+        return a | b
+
+    def refine(test: ast.expr, st, want: bool):
+        """State on the branch where `test` evaluates to `want` (None = unreachable); assignments by walrus in the test are applied."""
+        if st is None:
+            return None
+        if isinstance(test, ast.Constant):
+            return st if bool(test.value) is want else None
+        if isinstance(test, ast.UnaryOp) and isinstance(test.op, ast.Not):
+            return refine(test.operand, st, not want)
+        if isinstance(test, ast.BoolOp):
+            conj = isinstance(test.op, ast.And)
+            if conj == want:  # every operand has the value `want`
+                for v in test.values:
+                    st = refine(v, st, want)
+                return st
+            out = None  # operand i is the first with the other value
+            cur = st
+            for v in test.values:
+                out = join(out, refine(v, cur, want))
+                cur = refine(v, cur, not want)
+            return out
+        if isinstance(test, ast.Compare) and len(test.ops) == 1:
+            l, op, r = test.left, type(test.ops[0]), test.comparators[0]
+            for x, y, flip in ((l, r, False), (r, l, True)):
+                if isinstance(x, ast.NamedExpr) and isinstance(x.target, ast.Name) and x.target.id == var:
+                    if stores(x.value) or stores(y):
+                        raise _GiveUp
+                    st = absval(x.value)
+                    x = x.target
+                if isinstance(x, ast.Name) and x.id == var:
+                    try:
+                        k = ast.literal_eval(y)
+                    except Exception:  # noqa: BLE001
+                        break
+                    if isinstance(k, bool) or not isinstance(k, int):
+                        break
+                    if flip:
+                        op = {ast.Lt: ast.Gt, ast.Gt: ast.Lt, ast.LtE: ast.GtE, ast.GtE: ast.LtE}.get(op, op)
+                    if not st:
+                        return st
+                    kept = frozenset(v for v in st if can(v, op, k, want))
+                    return kept or None
+        if stores(test):
+            raise _GiveUp
+        return st
+
+    def block(stmts: list, st):
+        """(fall-through, break, continue) states of a statement list."""
+        brk = cont = None
+        for s in stmts:
+            if st is None:
+                break
+            st, b, c = stmt(s, st)
+            brk, cont = join(brk, b), join(cont, c)
+        return st, brk, cont
+
+    def loop(s, st, test: ast.expr | None):
+        head = st
+        brk_all = back = None
+        for _ in range(8):
+            inside = refine(test, head, True) if test is not None else head
+            out, b, c = block(s.body, inside)
+            brk_all = join(brk_all, b)
+            back = join(out, c)  # the states at the end of a round
+            new_head = join(head, back)
+            if new_head == head:
+                break
+            head = new_head
+        else:
+            raise _GiveUp
+        if s is target:  # (the iterable of a for loop is evaluated once, the test of a while loop before every round)
+            seen_at[0] = join(seen_at[0], head if test is not None else st)
+        if test is not None:
+            done = refine(test, head, False)
+        else:  # a for loop ends after its last round - or at once, unless its range is known not to be empty
+            done = back if _range_nonempty(f, s) else head
+        e_out, e_b, e_c = block(s.orelse, done)
+        return join(e_out, brk_all), e_b, e_c
+
+    def stmt(s: ast.stmt, st):
+        if s is target and not isinstance(s, (ast.While, ast.For, ast.AsyncFor)):
+            seen_at[0] = join(seen_at[0], st)
+        if isinstance(s, (ast.FunctionDef, ast.AsyncFunctionDef, ast.ClassDef)):
+            if any(isinstance(x, (ast.Nonlocal, ast.Global)) and var in x.names for x in ast.walk(s)):
+                raise _GiveUp
+            return st, None, None
+        if isinstance(s, (ast.Assign, ast.AnnAssign)):
+            tgts = s.targets if isinstance(s, ast.Assign) else [s.target]
+            if s.value is not None and stores(s.value):
+                raise _GiveUp
+            if any(isinstance(t, ast.Name) and t.id == var for t in tgts):
+                if s.value is None:
+                    return st, None, None
+                return absval(s.value), None, None
+            if any(stores(t) for t in tgts):
+                raise _GiveUp
+            return st, None, None
+        if isinstance(s, ast.If):
+            a, ab, ac = block(s.body, refine(s.test, st, True))
+            b, bb, bc = block(s.orelse, refine(s.test, st, False))
+            return join(a, b), join(ab, bb), join(ac, bc)
+        if isinstance(s, ast.While):
+            return loop(s, st, s.test)
+        if isinstance(s, (ast.For, ast.AsyncFor)):
+            if stores(s.target) or stores(s.iter):
+                raise _GiveUp
+            return loop(s, st, None)
+        if isinstance(s, ast.Break):
+            return None, st, None
+        if isinstance(s, ast.Continue):
+            return None, None, st
+        if isinstance(s, (ast.Return, ast.Raise)):
+            if stores(s):
+                raise _GiveUp
+            return None, None, None
+        if isinstance(s, (ast.With, ast.AsyncWith)):
+            if any(stores(i) for i in s.items):
+                raise _GiveUp
+            return block(s.body, st)
+        if isinstance(s, ast.Try) or s.__class__.__name__ == "TryStar":
+            out, b, c = block(s.body, st)
+            # an exception can leave the body after any of its assignments
+            mid = st
+            for x in ast.walk(ast.Module(body=s.body, type_ignores=[])):
+                if isinstance(x, (ast.Assign, ast.AnnAssign)) and any(isinstance(t, ast.Name) and t.id == var for t in (x.targets if isinstance(x, ast.Assign) else [x.target])) and x.value is not None:
+                    mid = join(mid, absval(x.value))
+                elif isinstance(x, ast.NamedExpr) and isinstance(x.target, ast.Name) and x.target.id == var:
+                    mid = join(mid, absval(x.value))
+            e_out, e_b, e_c = block(s.orelse, out)
+            res, rb, rc = e_out, join(b, e_b), join(c, e_c)
+            for h in s.handlers:
+                if h.name == var:
+                    raise _GiveUp
+                h_out, h_b, h_c = block(h.body, mid)
+                res, rb, rc = join(res, h_out), join(rb, h_b), join(rc, h_c)
+            if s.finalbody:
+                f_out, f_b, f_c = block(s.finalbody, join(res, mid))
+                # (the state after `finally` on the normal path is the normal one unless the block assigns the variable)
+                if any(stores(x) for x in s.finalbody):
+                    res = f_out
+                elif f_out is None:
+                    res = None
+                rb, rc = join(rb, f_b), join(rc, f_c)
+            return res, rb, rc
+        if isinstance(s, (ast.Expr, ast.AugAssign, ast.Assert, ast.Delete, ast.Pass, ast.Import, ast.ImportFrom, ast.Global, ast.Nonlocal)):
+            if stores(s) or (isinstance(s, (ast.Global, ast.Nonlocal)) and var in s.names):
+                raise _GiveUp
+            return st, None, None
+        raise _GiveUp  # match statements etc.
+
+    if var in f.param_names:
+        return None
+    try:
+        block(fn.body, frozenset())  # (before its first assignment the variable holds nothing)
+    except _GiveUp:
+        return None
+    except RecursionError:
+        return None
+    return seen_at[0]
+
+
 def _boundary_index_var(repo: Repo, f: FuncInfo, var: str, hay: str, at: ast.AST, nonneg: bool = False) -> str | None:
     """Every binding of `var` is the position of a separator in `hay` (`hay.find(".", ..)` / `hay.rfind(".", ..)`), the length of
     `hay` (the whole name) or a not-found sentinel (-1 / 0): 'safe' if `at` is only reached with a found position,
@@ -2096,6 +2395,10 @@ def _boundary_index_var(repo: Repo, f: FuncInfo, var: str, hay: str, at: ast.AST
     if not (binds and len(vals) == len(binds) and finds and all(v in finds or sentinel(v) or whole(v) for v in vals)):
         return None
     if nonneg or _found_guard(repo, f, at, hay, {var}):
+        return "safe"
+    # reaching values: on every path to the cut the not-found result was replaced (`if i < 0: i = len(name)`) or excluded
+    kinds = _index_values_at(f, var, hay, at)
+    if kinds and "neg" not in kinds:
         return "safe"
     return "unsafe"
 
@@ -2250,16 +2553,98 @@ def _positions_of(repo: Repo, f: FuncInfo, node: ast.AST, var: str, tgt: ast.exp
     return None
 
 
+def _len_field(repo: Repo, f: FuncInfo, e: ast.expr) -> ast.Call | None:
+    """`self._end` where the only assignment of the field is `self._end = len(self._root)` in a method that also holds the only
+    assignment(s) of `self._root`, all of them before it: the field is the length of that other field - returns `len(self._root)`."""
+    if not (isinstance(e, ast.Attribute) and isinstance(e.value, ast.Name) and e.value.id == "self" and f.cls is not None and not isinstance(f.node, ast.Lambda)):
+        return None
+    key = ("len_field", id(repo), f.cls.fq, e.attr)
+    if key in _cache:
+        return _cache[key]
+    out = None
+    try:
+        O = origins(repo)
+        asg = O._field_assignments(f, e.attr)
+        if len(asg) == 1:
+            m, v = asg[0]
+            if isinstance(v, ast.Call) and isinstance(v.func, ast.Name) and v.func.id == "len" and len(v.args) == 1 and not v.keywords and not _is_local(m, "len"):
+                a = v.args[0]
+                if isinstance(a, ast.Attribute) and isinstance(a.value, ast.Name) and a.value.id == "self" and a.attr != e.attr:
+                    other = O._field_assignments(f, a.attr)
+                    if other and all(m2 is m and getattr(v2, "lineno", 10**9) < getattr(v, "lineno", 0) for m2, v2 in other):
+                        out = ast.Call(func=ast.Name(id="len", ctx=ast.Load()), args=[ast.Attribute(value=ast.Name(id="self", ctx=ast.Load()), attr=a.attr, ctx=ast.Load())], keywords=[])
+    except Exception:  # noqa: BLE001
+        out = None
+    _cache[key] = out
+    return out
+
+
+def _attr_constant_collection(repo: Repo, f: FuncInfo, e: ast.Attribute) -> ast.Tuple | None:
+    """`self.X` / `cls.X` / `Class.X` that is a class-level tuple / list / set / frozenset of string constants: the tuple of them."""
+    classes = []
+    if isinstance(e.value, ast.Name) and e.value.id in ("self", "cls") and f.cls is not None:
+        classes = repo.mro(f.cls)
+    elif isinstance(e.value, (ast.Name, ast.Attribute)):
+        fq = repo.resolve_name(f.module, e.value)
+        ci = repo.classes.get(fq) if fq else None
+        if ci is not None:
+            classes = repo.mro(ci)
+    for ci in classes:
+        if e.attr in ci.class_attrs:
+            v = ci.class_attrs[e.attr]
+            if isinstance(v, ast.Call) and isinstance(v.func, ast.Name) and v.func.id in ("frozenset", "tuple", "set", "list") and len(v.args) == 1:
+                v = v.args[0]
+            if isinstance(v, (ast.Tuple, ast.List, ast.Set)) and v.elts and all(_const_str(x) is not None for x in v.elts):
+                if isinstance(e.value, ast.Name) and e.value.id == "self" and origins(repo)._field_assignments(f, e.attr)[:-1]:
+                    return None  # (also assigned on instances)
+                return ast.Tuple(elts=[ast.Constant(value=_const_str(x)) for x in v.elts], ctx=ast.Load())
+            return None
+    return None
+
+
+def _bound_local(f: FuncInfo, n: ast.AST) -> str | None:
+    """The local variable that is bound to exactly the value `n` by its only assignment: `v = n`, `v: T = n`,
+    `v, w = n, other` (pairwise tuple assignment)."""
+    if isinstance(f.node, ast.Lambda):
+        return None
+    st = stmt_of(n)
+    var = None
+    if isinstance(st, ast.Assign) and len(st.targets) == 1:
+        t = st.targets[0]
+        if st.value is n and isinstance(t, ast.Name):
+            var = t.id
+        elif isinstance(t, (ast.Tuple, ast.List)) and isinstance(st.value, (ast.Tuple, ast.List)) and len(t.elts) == len(st.value.elts) and not any(isinstance(x, ast.Starred) for x in [*t.elts, *st.value.elts]):
+            for tt, vv in zip(t.elts, st.value.elts):
+                if vv is n and isinstance(tt, ast.Name):
+                    # (the right-hand sides are evaluated before any target is bound: no target may be read on the right)
+                    tnames = {x.id for x in t.elts if isinstance(x, ast.Name)}
+                    if not any(isinstance(x, ast.Name) and x.id in tnames for x in ast.walk(st.value)):
+                        var = tt.id
+    elif isinstance(st, ast.AnnAssign) and st.value is n and isinstance(st.target, ast.Name):
+        var = st.target.id
+    if var is None or var in f.param_names:
+        return None
+    if len([x for x in own_nodes(f.node) if isinstance(x, ast.Name) and x.id == var and isinstance(x.ctx, ast.Store)]) != 1:
+        return None
+    return var
+
+
 def _len_calls(repo: Repo, f: FuncInfo, b: ast.expr | None) -> list[ast.Call]:
     """The len(..) calls a slice bound is computed from (directly or through a single-assignment local)."""
     if b is None:
         return []
     out = [c for c in ast.walk(b) if isinstance(c, ast.Call) and isinstance(c.func, ast.Name) and c.func.id == "len" and c.args]
+
+    def fields(x: ast.AST) -> list[ast.Call]:  # a length kept in a field: `self._end = len(self._root)`
+        return [c for a in ast.walk(x) if isinstance(a, ast.Attribute) for c in [_len_field(repo, f, a)] if c is not None]
+
+    out += fields(b)
     for x in ast.walk(b):
         if isinstance(x, ast.Name):
             d = local_defs(repo, f).get(x.id)
             if d is not None and not isinstance(d, (ast.ListComp, ast.GeneratorExp, ast.SetComp, ast.DictComp)):
                 out += [c for c in ast.walk(d) if isinstance(c, ast.Call) and isinstance(c.func, ast.Name) and c.func.id == "len" and c.args]
+                out += fields(d)
     return out
 
 
@@ -2268,15 +2653,35 @@ def _len_bound(repo: Repo, f: FuncInfo, b: ast.expr | None, hay: str = "") -> as
     return next((c for c in _len_calls(repo, f, b) if norm(c.args[0]) != hay), None)
 
 
-def _slice_as_prefix_test(repo: Repo, f: FuncInfo, n: ast.Subscript) -> tuple[str, str] | None:
+def _slice_as_prefix_test(repo: Repo, f: FuncInfo, n: ast.Subscript, _cmp: tuple | None = None) -> tuple[str, str] | None:
     """`name[:len(p)] == p` is `name.startswith(p)`, `name[:len(o) + 1] == o + "."` is `name.startswith(o + ".")`,
     `name[-len(s):] == s` is `name.endswith(s)`: classified like the method."""
     cmp_ = parent(n)
-    if not (isinstance(cmp_, ast.Compare) and len(cmp_.ops) == 1 and isinstance(cmp_.ops[0], (ast.Eq, ast.NotEq))):
-        return None
-    other_side = cmp_.comparators[0] if cmp_.left is n else cmp_.left
-    if other_side is n:
-        return None
+    if _cmp is not None:
+        cmp_, other_side = _cmp
+    else:
+        if not (isinstance(cmp_, ast.Compare) and len(cmp_.ops) == 1 and isinstance(cmp_.ops[0], (ast.Eq, ast.NotEq))):
+            # the slice is kept in a local that is only ever compared: `head = name[:len(p)]` ... `head == p`
+            var = _bound_local(f, n)
+            if var is None:
+                return None
+            uses = [x for x in own_nodes(f.node) if isinstance(x, ast.Name) and x.id == var and isinstance(x.ctx, ast.Load)]
+            verdicts = []
+            for u_ in uses:
+                c_ = parent(u_)
+                if not (isinstance(c_, ast.Compare) and len(c_.ops) == 1 and isinstance(c_.ops[0], (ast.Eq, ast.NotEq))):
+                    return None
+                o_ = c_.comparators[0] if c_.left is u_ else c_.left
+                if o_ is u_:
+                    return None
+                verdicts.append(_slice_as_prefix_test(repo, f, n, _cmp=(c_, o_)))
+            if not verdicts or any(v is None for v in verdicts):
+                return None
+            bad = next((v for v in verdicts if v[0] != "safe"), None)
+            return bad or verdicts[0]
+        other_side = cmp_.comparators[0] if cmp_.left is n else cmp_.left
+        if other_side is n:
+            return None
     lo, hi = n.slice.lower, n.slice.upper
     side = _expand(repo, f, other_side)
     if lo is None and hi is not None:
@@ -2287,6 +2692,8 @@ def _slice_as_prefix_test(repo: Repo, f: FuncInfo, n: ast.Subscript) -> tuple[st
                 c2, o2 = _strip_offset(d)
                 if off is not None and o2 is not None:
                     core, off = c2, off + o2
+        if isinstance(core, ast.Attribute) and _len_field(repo, f, core) is not None:
+            core = _len_field(repo, f, core)  # a length kept in a field
         if isinstance(core, ast.Call) and _call_name(core) == "len" and core.args and off is not None:
             p_ = core.args[0]
             if off == 0 and norm(p_) in (norm(other_side), norm(side)):
@@ -2367,6 +2774,12 @@ def _expand_names(repo: Repo, f: FuncInfo, e: ast.AST, depth: int = 0):
             c = _attr_constant(repo, types_of(repo), f, x)
             if c is not None:
                 return ast.Constant(value=c)
+            lf = _len_field(repo, f, x)
+            if lf is not None:
+                return lf
+            coll = _attr_constant_collection(repo, f, x)
+            if coll is not None:
+                return coll
         new = type(x)()
         for fld in x._fields:
             if hasattr(x, fld):
@@ -2745,6 +3158,8 @@ def _remainder_uses(repo: Repo, f: FuncInfo, n: ast.AST, hay_e: ast.expr, needle
         if not single_store(st.targets[0].id):
             return False, False
         uses = loads(st.targets[0].id)
+    elif _bound_local(f, n) is not None:  # (pairwise tuple assignment, annotated assignment)
+        uses = loads(_bound_local(f, n))
     elif isinstance(parent(n), ast.NamedExpr) and parent(n).value is n and isinstance(parent(n).target, ast.Name):
         if not single_store(parent(n).target.id):
             return False, False
@@ -3173,6 +3588,9 @@ def _remainder_only_examined(repo: Repo, f: FuncInfo, n: ast.AST) -> bool:
         if len(stores) != 1 or var in f.param_names:
             return False
         uses = [x for x in own_nodes(f.node) if isinstance(x, ast.Name) and x.id == var and isinstance(x.ctx, ast.Load)]
+    elif _bound_local(f, n) is not None:  # (pairwise tuple assignment, annotated assignment)
+        var = _bound_local(f, n)
+        uses = [x for x in own_nodes(f.node) if isinstance(x, ast.Name) and x.id == var and isinstance(x.ctx, ast.Load)]
     else:
         uses = [n]
     if not uses:
@@ -3208,8 +3626,11 @@ def _remainder_only_examined(repo: Repo, f: FuncInfo, n: ast.AST) -> bool:
     return dot_test
 
 
-def _slice_by_len(repo: Repo, f: FuncInfo, n: ast.AST, other_e: ast.expr, boundary_funcs: set[str], depth: int = 0, hay_e: ast.expr | None = None) -> tuple[str, str]:
-    """Verdict for removing the first len(other) characters of the name `hay` at node `n` (`hay[len(other):]`, `hay.removeprefix(other)`)."""
+def _slice_by_len(repo: Repo, f: FuncInfo, n: ast.AST, other_e: ast.expr, boundary_funcs: set[str], depth: int = 0, hay_e: ast.expr | None = None, relation_only: bool = False) -> tuple[str, str]:
+    """Verdict for removing the first len(other) characters of the name `hay` at node `n` (`hay[len(other):]`, `hay.removeprefix(other)`).
+
+    relation_only: accept only when `hay == other or hay.startswith(other + ".")` is established at `n` (not because the result
+    is merely examined) - for operations that are a cut only under that relation (`hay.replace(other, x, 1)`)."""
     from core.guards import f_or, implies
 
     hay_e = hay_e if hay_e is not None else n.value
@@ -3222,15 +3643,16 @@ def _slice_by_len(repo: Repo, f: FuncInfo, n: ast.AST, other_e: ast.expr, bounda
             return "safe", "prefix length of an ancestor established by a boundary-safe test"
         if _ancestor_or_self(repo, f, other_e, hay):
             return "safe", "the other string is the name itself or one of its ancestors (get_parent_modules)"
-        if f.fq in boundary_funcs or _boundary_predicate(repo, f, hay, other):
-            return "safe", "the remainder is only examined by the boundary test of this predicate"
-        if _remainder_only_examined(repo, f, n):
-            return "safe", "the remainder is only tested to be empty or to start with the separator"
-        only_tests, guarded = _remainder_uses(repo, f, n, hay_e, other_e)
-        if only_tests:
-            return "safe", "the remainder is only tested to be empty or to start with the separator"
-        if guarded and raw_a and implies(facts, f_or([*safe_a, *raw_a])):
-            return "safe", "after the raw prefix test the remainder is used only where it was tested to be empty or to start with the separator"
+        if not relation_only:
+            if f.fq in boundary_funcs or _boundary_predicate(repo, f, hay, other):
+                return "safe", "the remainder is only examined by the boundary test of this predicate"
+            if _remainder_only_examined(repo, f, n):
+                return "safe", "the remainder is only tested to be empty or to start with the separator"
+            only_tests, guarded = _remainder_uses(repo, f, n, hay_e, other_e)
+            if only_tests:
+                return "safe", "the remainder is only tested to be empty or to start with the separator"
+            if guarded and raw_a and implies(facts, f_or([*safe_a, *raw_a])):
+                return "safe", "after the raw prefix test the remainder is used only where it was tested to be empty or to start with the separator"
         if raw_a and implies(facts, f_or([*safe_a, *raw_a])):
             return "unsafe", f"`{norm(n, 60)}` cuts a module name at the length of another string without a boundary-safe prefix test"
     except AnalysisError:
@@ -3432,6 +3854,72 @@ def _char_prefix_sites(repo: Repo, f: FuncInfo, loop: ast.For, char: str, it: as
     return out
 
 
+def _pair_joiner_separator(repo: Repo, f: FuncInfo, fn: ast.expr, depth: int = 0) -> str | None:
+    """The constant a two-argument combiner puts between its arguments (`"{}.{}".format`, `lambda a, b: f"{a}.{b}"`,
+    `lambda a, b: a + "." + b`, `lambda a, b: ".".join((a, b))`, a small function that returns one of these); None if `fn` is
+    not such a combiner."""
+    if isinstance(fn, ast.Attribute) and fn.attr == "format":
+        fmt = _const_str(fn.value)
+        if fmt is None and isinstance(fn.value, (ast.Name, ast.Attribute)):
+            fmt = fold(repo, f.module, fn.value, f)
+        if fmt is None:
+            return None
+        import re as _re
+
+        m = _re.fullmatch(r"\{(0?)\}(.*?)\{(1?)\}", fmt, _re.S)
+        if m is None or (bool(m.group(1)) != bool(m.group(3))) or "{" in m.group(2) or "}" in m.group(2):
+            return None
+        return m.group(2)
+    params: list[str] | None = None
+    body: ast.expr | None = None
+    if isinstance(fn, ast.Lambda):
+        a = fn.args
+        if not (a.vararg or a.kwarg or a.kwonlyargs or a.defaults) and len(a.posonlyargs) + len(a.args) == 2:
+            params, body = [x.arg for x in [*a.posonlyargs, *a.args]], fn.body
+    elif isinstance(fn, (ast.Name, ast.Attribute)) and depth < 2:
+        g = _resolve_callable_text(repo, f, fn)
+        if g is not None and isinstance(g.node, (ast.FunctionDef, ast.Lambda)):
+            ps = [x for x in _positional(g) if x not in ("self", "cls")]
+            if isinstance(g.node, ast.Lambda):
+                params, body = ps, g.node.body
+            else:
+                stmts = [st_ for st_ in g.node.body if not (isinstance(st_, ast.Expr) and isinstance(st_.value, ast.Constant))]
+                if len(stmts) == 1 and isinstance(stmts[0], ast.Return) and stmts[0].value is not None:
+                    params, body = ps, stmts[0].value
+            if params is not None and len(params) != 2:
+                params = None
+    if params is None or body is None:
+        return None
+    x, y = params
+
+    def is_(e: ast.expr, v: str) -> bool:
+        return isinstance(e, ast.Name) and e.id == v
+
+    if isinstance(body, ast.JoinedStr):
+        vals = body.values
+        if len(vals) in (2, 3) and isinstance(vals[0], ast.FormattedValue) and isinstance(vals[-1], ast.FormattedValue) and is_(vals[0].value, x) and is_(vals[-1].value, y):
+            if len(vals) == 2:
+                return ""
+            return vals[1].value if isinstance(vals[1], ast.Constant) and isinstance(vals[1].value, str) else None
+        return None
+    if isinstance(body, ast.BinOp) and isinstance(body.op, ast.Add):
+        if is_(body.left, x) and is_(body.right, y):
+            return ""
+        if isinstance(body.left, ast.BinOp) and isinstance(body.left.op, ast.Add) and is_(body.left.left, x) and is_(body.right, y):
+            return _char_value(repo, f, body.left.right) if _const_str(body.left.right) is None else _const_str(body.left.right)
+        if isinstance(body.right, ast.BinOp) and isinstance(body.right.op, ast.Add) and is_(body.left, x) and is_(body.right.right, y):
+            return _char_value(repo, f, body.right.left) if _const_str(body.right.left) is None else _const_str(body.right.left)
+        return None
+    if isinstance(body, ast.Call) and isinstance(body.func, ast.Attribute) and body.func.attr == "join" and len(body.args) == 1 and isinstance(body.args[0], (ast.Tuple, ast.List)):
+        el = body.args[0].elts
+        if len(el) == 2 and is_(el[0], x) and is_(el[1], y):
+            return _const_str(body.func.value)
+        return None
+    if isinstance(body, ast.Call) and isinstance(body.func, ast.Attribute) and body.func.attr == "format" and len(body.args) == 2 and not body.keywords and is_(body.args[0], x) and is_(body.args[1], y):
+        return _pair_joiner_separator(repo, f, body.func, depth + 1)
+    return None
+
+
 def scan(repo: Repo) -> list[Site]:
     key = ("name_sites", id(repo))
     if key not in _cache:
@@ -3543,6 +4031,17 @@ def _scan(repo: Repo) -> list[Site]:
                             sites.append(Site(f, n, op, hay, needle, True, "unsafe", f"`{norm(n, 80)}`: {const!r} inside a module name is turned into the separator - different names become one", "separator"))
                             continue
                         why = "replaces a constant" if safe else f"`{norm(n, 80)}`: str.replace substitutes every occurrence of one module name inside another, not a leading run of whole components"
+                        if not safe and const is None:
+                            # name.replace(p, x, 1) substitutes the *first* occurrence of p: that is the leading run of whole
+                            # components exactly when name == p or name.startswith(p + ".") holds at the call (position 0 is the
+                            # leftmost occurrence then); after a raw prefix test, or without any test, it is another place
+                            cnt = n.args[2] if len(n.args) == 3 else next((k.value for k in n.keywords if k.arg == "count"), None)
+                            if len(n.args) in (2, 3) and isinstance(cnt, ast.Constant) and cnt.value == 1 and not isinstance(cnt.value, bool):
+                                v, w = _slice_by_len(repo, f, n, needle, boundary_funcs, hay_e=hay, relation_only=True)
+                                if v == "safe":
+                                    safe, why = True, "only the first occurrence is replaced, and " + w + ": the first occurrence is the leading run of whole components"
+                                else:
+                                    why = f"`{norm(n, 80)}`: the first occurrence of one module name inside another is replaced, and no boundary-safe test establishes that the name is that module or lies below it - the occurrence may be anywhere (a raw prefix, the middle of a component)"
                     sites.append(Site(f, n, op, hay, needle, True, "safe" if safe else "unsafe", why, group))
                 # ---- joining components
                 elif isinstance(n, ast.Call) and isinstance(n.func, ast.Attribute) and n.func.attr == "join" and len(n.args) == 1 and _const_str(n.func.value) is not None:
@@ -3567,6 +4066,20 @@ def _scan(repo: Repo) -> list[Site]:
                     else:
                         verdict, why = "unsafe", f"`{norm(n, 80)}`: the components of a module name are joined with {sep!r}, not with the separator '.'"
                     sites.append(Site(f, n, "join", n.args[0], n.func.value, True, verdict, why, "separator"))
+                # ---- components folded pairwise into longer and longer names: accumulate(parts, "{}.{}".format), reduce(lambda a, b: a + "." + b, parts)
+                elif isinstance(n, ast.Call) and isinstance(n.func, (ast.Name, ast.Attribute)) and (repo.resolve_name(f.module, n.func) or "") in ("itertools.accumulate", "functools.reduce") and len(n.args) >= 2:
+                    folded = (repo.resolve_name(f.module, n.func) or "").endswith("reduce")
+                    parts_e, fn_e = (n.args[1], n.args[0]) if folded else (n.args[0], n.args[1])
+                    if "PARTS" not in tagged(parts_e):
+                        continue
+                    sep = _pair_joiner_separator(repo, f, fn_e)
+                    if sep is None or sep in ("/", "\\"):
+                        continue  # not a recognised joiner (no statement) / a module name written as a path
+                    if sep == ".":
+                        verdict, why = "safe", "components are joined pairwise with the separator '.'"
+                    else:
+                        verdict, why = "unsafe", f"`{norm(n, 80)}`: the components of a module name are joined pairwise with {sep!r}, not with the separator '.'"
+                    sites.append(Site(f, n, "join", parts_e, fn_e, True, verdict, why, "separator"))
                 # ---- a bound str method handed to map / filter / any: `any(map(name.startswith, prefixes))`
                 elif isinstance(n, ast.Call) and isinstance(n.func, ast.Name) and n.func.id in ("map", "filter") and len(n.args) == 2 and isinstance(n.args[0], ast.Attribute) and n.args[0].attr in ("startswith", "endswith", "find", "__contains__"):
                     hay = n.args[0].value
